@@ -405,22 +405,22 @@ theorem affine_reproduces (fs gs : List Fn) (x u : DVec ℝ) (t : ℝ) :
 
 /-- **All histories (documented semantics: the reference point is a snapshot).** After a successful
 `set_refpoint(x?, u?, t?)` — `None`s resolved to the last call's state/input and to the clock at that
-moment — and *any* later calls, resets, `systime` assignments **and in-place updates of the caller's own
-tensors** (`poke`), reading `A, B, C, D, c1, c2` yields the linearisation at exactly that point; so
+moment — and *any* later calls (also calls whose user function raises, under either semantics `pf` of error paths),
+resets, `systime` assignments **and in-place updates of the caller's own tensors** (`poke`), reading `A, B, C, D, c1, c2` yields the linearisation at exactly that point; so
 `jacobian_*` and `affine_reproduces` apply. -/
-theorem nls_history (fs gs : List Fn) (S0 : NState ℝ) (pre post : List (NEv ℝ))
+theorem nls_history (pf : Bool) (fs gs : List Fn) (S0 : NState ℝ) (pre post : List (NEv ℝ))
     (x? u? : Option (DVec ℝ)) (tr : TRef ℝ) (x u : DVec ℝ)
-    (hx : orLast x? ((runN false false false fs gs S0 pre).last.map Prod.fst) = some x)
-    (hu : orLast u? ((runN false false false fs gs S0 pre).last.map Prod.snd) = some u)
+    (hx : orLast x? ((runN false false pf fs gs S0 pre).last.map Prod.fst) = some x)
+    (hu : orLast u? ((runN false false pf fs gs S0 pre).last.map Prod.snd) = some u)
     (hpost : ∀ e ∈ post, e.isRef = false) :
-    readLin fs gs (runN false false false fs gs S0 (pre ++ .refpoint x? u? tr :: post))
-      = some (linearize fs gs x u (refTime (runN false false false fs gs S0 pre).clock tr)) := by
+    readLin fs gs (runN false false pf fs gs S0 (pre ++ .refpoint x? u? tr :: post))
+      = some (linearize fs gs x u (refTime (runN false false pf fs gs S0 pre).clock tr)) := by
   rw [runN_append, runN_cons]
-  set S := runN false false false fs gs S0 pre with hS
-  obtain ⟨r1, r2, r3, r4, r5, _⟩ := setRefpoint_ok false fs gs S x? u? tr x u hx hu
-  have hstep : (stepN false false false fs gs S (.refpoint x? u? tr)).1 = (setRefpoint false fs gs S x? u? tr).1 := rfl
+  set S := runN false false pf fs gs S0 pre with hS
+  obtain ⟨r1, r2, r3, r4, r5, _⟩ := setRefpoint_ok false pf fs gs S x? u? tr x u hx hu
+  have hstep : (stepN false false pf fs gs S (.refpoint x? u? tr)).1 = (setRefpoint false fs gs S x? u? tr pf).1 := rfl
   rw [hstep]
-  obtain ⟨q1, q2, q3, q4, q5, _⟩ := runN_nonref false false fs gs post (setRefpoint false fs gs S x? u? tr).1 hpost (Or.inl rfl)
+  obtain ⟨q1, q2, q3, q4, q5, _⟩ := runN_nonref false false pf fs gs post (setRefpoint false fs gs S x? u? tr pf).1 hpost (Or.inl rfl)
   have hv : ∀ c : Int, (refTOf false S.clock tr).value c = refTime S.clock tr := by
     intro c; cases tr <;> simp [refTOf, refTime, RefT.value]
   unfold readLin
@@ -480,10 +480,10 @@ theorem nls_history_alias (fs gs : List Fn) (S0 : NState ℝ) (pre post : List (
   intro c0 cnow
   rw [runN_append, runN_cons]
   set S := runN true false false fs gs S0 pre with hS
-  obtain ⟨r1, r2, r3, r4, r5, r6⟩ := setRefpoint_ok true fs gs S x? u? tr x u hx hu
+  obtain ⟨r1, r2, r3, r4, r5, r6⟩ := setRefpoint_ok true false fs gs S x? u? tr x u hx hu
   have hstep : (stepN true false false fs gs S (.refpoint x? u? tr)).1 = (setRefpoint true fs gs S x? u? tr).1 := rfl
   rw [hstep]
-  obtain ⟨q1, q2, q3, q4, q5, q6⟩ := runN_nonref true false fs gs post (setRefpoint true fs gs S x? u? tr).1 hpost (Or.inl rfl)
+  obtain ⟨q1, q2, q3, q4, q5, q6⟩ := runN_nonref true false false fs gs post (setRefpoint true fs gs S x? u? tr).1 hpost (Or.inl rfl)
   have hv : (refTOf true S.clock tr).value S.clock = refTime S.clock tr := by
     cases tr <;> simp [refTOf, refTime, RefT.value]
   unfold readLin
@@ -553,10 +553,10 @@ theorem nls_history_code_ok (fs gs : List Fn) (S0 : NState ℝ) (pre post : List
       = some (linearize fs gs x u (refTime (runN false true false fs gs S0 pre).clock tr)) := by
   rw [runN_append, runN_cons]
   set S := runN false true false fs gs S0 pre with hS
-  obtain ⟨r1, r2, r3, r4, r5, _⟩ := setRefpoint_ok false fs gs S x? u? tr x u hx hu
+  obtain ⟨r1, r2, r3, r4, r5, _⟩ := setRefpoint_ok false false fs gs S x? u? tr x u hx hu
   have hstep : (stepN false true false fs gs S (.refpoint x? u? tr)).1 = (setRefpoint false fs gs S x? u? tr).1 := rfl
   rw [hstep]
-  obtain ⟨q1, q2, q3, q4, q5, _⟩ := runN_nonref false true fs gs post (setRefpoint false fs gs S x? u? tr).1 hpost
+  obtain ⟨q1, q2, q3, q4, q5, _⟩ := runN_nonref false true false fs gs post (setRefpoint false fs gs S x? u? tr).1 hpost
     (Or.inr hpoke)
   have hv : ∀ c : Int, (refTOf false S.clock tr).value c = refTime S.clock tr := by
     intro c; cases tr <;> simp [refTOf, refTime, RefT.value]
@@ -602,15 +602,15 @@ theorem nls_call_history_independent (al ax pf al' ax' pf' : Bool) (fs gs : List
 theorem nls_read_unchanged_by_calls (fs gs : List Fn) (S : NState ℝ) (t : ℝ) (hr : S.reft = some (.own t))
     (xus : List (DVec ℝ × DVec ℝ)) :
     readLin fs gs (runN false false false fs gs S (xus.map fun xu => .call xu.1 xu.2)) = readLin fs gs S := by
-  obtain ⟨q1, q2, q3, q4, q5, _⟩ := runN_nonref false false fs gs (xus.map fun xu => NEv.call xu.1 xu.2) S
+  obtain ⟨q1, q2, q3, q4, q5, _⟩ := runN_nonref false false false fs gs (xus.map fun xu => NEv.call xu.1 xu.2) S
     (by intro e he; simp only [List.mem_map] at he; obtain ⟨_, _, rfl⟩ := he; rfl) (Or.inl rfl)
   unfold readLin
   rw [q1, q2, q3, q4, q5, hr]
   cases S.refx <;> cases S.refu <;> cases S.reff <;> cases S.refg <;> simp [RefT.value]
 
-/-! ## 8. Error paths are atomic -/
+/-! ## 8. Error paths (an observation outside the property: its histories contain no raising calls) -/
 
-/-- **A call that raises leaves the object as it was** (documented behaviour, `partialF = false`): a `forward` whose user
+/-- what atomic error paths (`partialF = false`, *not* the code) would give: a call that raises leaves the object as it was: a `forward` whose user
 function raises, a `set_refpoint` that cannot resolve its arguments, a `set_refpoint` whose user function raises. -/
 theorem nls_failed_call_atomic (al ax : Bool) (fs gs : List Fn) (S : NState ℝ) (e : NEv ℝ)
     (h : (stepN al ax false fs gs S e).2 = .raised) : (stepN al ax false fs gs S e).1 = S := by
@@ -639,7 +639,7 @@ theorem nls_history_without_failed_call (al ax : Bool) (fs gs : List Fn) (S0 : N
     runN al ax false fs gs S0 (pre ++ e :: post) = runN al ax false fs gs S0 (pre ++ post) := by
   rw [runN_append, runN_cons, nls_failed_call_atomic al ax fs gs _ e h, ← runN_append]
 
-/-- **Witness that the code as it stands is not atomic** (`partialF = true`): `f = x²`; `set_refpoint(1, 0, 0)`; then
+/-- witness that the code (`partialF = true`) is not atomic: `f = x²`; `set_refpoint(1, 0, 0)`; then
 `set_refpoint(state=3)` before any `forward` raises (no `self.input`) — but `_ref_state` is already overwritten: the
 matrices now read `A = 6`, `c1 = −17` although the last successful reference point is `x* = 1` (`A = 2`, `c1 = −1`). -/
 theorem partial_update_defect_witness :
@@ -667,7 +667,7 @@ example : readLin [Fn.mul (.var 0) (.var 2)] [Fn.var 0]
     = some (linearize [Fn.mul (.var 0) (.var 2)] [Fn.var 0] [(1 : ℝ)] [(0 : ℝ)]
         (refTime (runN false false false [Fn.mul (.var 0) (.var 2)] [Fn.var 0] (NState.init 0 : NState ℝ)
           [.call [(1 : ℝ)] [(0 : ℝ)]]).clock .default)) :=
-  nls_history [Fn.mul (.var 0) (.var 2)] [Fn.var 0] (NState.init 0) [.call [(1 : ℝ)] [(0 : ℝ)]]
+  nls_history false [Fn.mul (.var 0) (.var 2)] [Fn.var 0] (NState.init 0) [.call [(1 : ℝ)] [(0 : ℝ)]]
     [.call [(1 : ℝ)] [(0 : ℝ)], .reset ⟨7, 1⟩] none none .default [(1 : ℝ)] [(0 : ℝ)]
     (by simp [runN, stepN, NState.init, orLast]) (by simp [runN, stepN, NState.init, orLast])
     (by simp [NEv.isRef])
